@@ -1,0 +1,32 @@
+use crate::key::list::KeyExpList;
+use crate::key::node::Color;
+use crate::key::tree::KeyExpTree;
+use crate::verif::{VerifSlot, VerifTree};
+
+impl<K: Copy, E, V> KeyExpTree<K, E, V> {
+    pub fn verif_snapshot(&self) -> VerifTree<K> {
+        VerifTree {
+            root: self.root,
+            slots: self
+                .store
+                .buffer
+                .iter()
+                .map(|n| VerifSlot {
+                    parent: n.parent,
+                    left: n.left,
+                    right: n.right,
+                    red: n.color == Color::Red,
+                    item: n.entity.key,
+                })
+                .collect(),
+            unused: self.store.unused.clone(),
+            unused_capacity: self.store.unused.capacity(),
+        }
+    }
+}
+
+impl<K: Copy, E, V> KeyExpList<K, E, V> {
+    pub fn verif_keys(&self) -> Vec<K> {
+        self.buffer.iter().map(|e| e.key).collect()
+    }
+}
